@@ -54,7 +54,7 @@ kanirun.META["C16"] = {
 }
 
 kanirun.META["C06"] = {
-    "bounds": "entry level: one dynamic entry holding (u64,u64), all sequences of <= 5 operations from {write, watcher1.reloaded, watcher2.reloaded, reloaded_global (typed/untyped), fresh watcher}, all 64-bit values; write section: snapshots at lock acquire/release; graph: one asset visited twice at model capacity 1; E2: 1 watcher x 2 polls vs 1 increment (quick), 2 polls vs 2 and 3 polls vs 1 (thorough), all interleavings",
+    "bounds": "entry level: one dynamic entry holding (u64,u64), all sequences of <= 5 operations from {write, watcher1.reloaded, watcher2.reloaded, reloaded_global (typed/untyped), fresh watcher}, all 64-bit values; write section: snapshots at lock acquire/release; graph: one asset visited twice at model capacity 1; E2: 1 watcher x 2 polls vs 1 increment (quick), 2 polls vs 2 and 3 polls vs 1 (thorough), all interleavings; E2: run_update from MIR (n <= 3 / 6 affected assets, every reload outcome); E2: reloaded_global, 2 / 3 polling threads against one reload (Atomic<bool> events)",
     "outside": "edits never notified on a real filesystem; diamonds and two notified files on real graphs, run_update (parked: undecidable within reach); more than 2 watchers",
     "assumptions": COMMON_ASSUME,
 }
@@ -123,7 +123,7 @@ kanirun.META["C02"] = {
     "assumptions": COMMON_ASSUME,
 }
 kanirun.META["C09"] = {
-    "bounds": "a failing Compound::load on a cache with a reloader: error returned, nothing cached, nothing registered with the reloader; recording cell restored (C14 kernel); the reloader still answers after processing (thorough); E2 (MIR -> SMT): control flow of AnyCache::reload_untyped with every callee outcome symbolic (entry found or not, hot-reloaded or not, reloader present or not, load Ok or Err)",
+    "bounds": "a failing Compound::load on a cache with a reloader: error returned, nothing cached, nothing registered with the reloader; recording cell restored (C14 kernel); the reloader still answers after processing (thorough); E2 (MIR -> SMT): control flow of AnyCache::reload_untyped with every callee outcome symbolic (entry found or not, hot-reloaded or not, reloader present or not, load Ok or Err); E2: run_update from MIR (n <= 3 / 6 affected assets, every reload outcome: all are reloaded once, in order); E2: the extension loop of load_from_source (n <= 3) for the error a failing load reports",
     "outside": "panics (Kani has no unwinding: CellGuard on unwind, poison-ignoring locks); io::Error kinds through load_from_source (thorough only)",
     "assumptions": COMMON_ASSUME,
 }
